@@ -319,6 +319,8 @@ def hand_spec(rng, case):
     dd = float(rng.choice([0.8, 1.0, 1.2]))
     d = {t: (dd if case['equal_d'] else float(rng.choice([0.6, 0.8, 1.0, 1.2, 1.4]))) for t in types}
     rho = {t: float(rng.uniform(0.02, 0.3)) for t in types}
+    if rank >= 2 and case['seed'] % 12 == 5:
+        rho[types[-1]] = 0.0            # a tracer species at density exactly zero (pure-component end of a composition sweep)
     sp = dict(types=types, dr=dr, L=L, d=d, rho=rho, kT=float(rng.uniform(0.5, 3.0)), pot={}, clo={}, om={})
     k = R.grids(L, dr)[1]
     for (i, j), (a, b) in G.pairs(types):
